@@ -52,6 +52,7 @@ func Drive(c Chooser, m *t1model.Font, sc Scope) *Options {
 		o.Eol = c.Deviate(eolForms)
 		o.StrForm = c.Deviate(strForms)
 		o.HexUpper = c.Deviate(2) == 1
+		o.HexBreak = c.Deviate(4)
 		o.Dense = c.Deviate(2) == 1
 	}
 	for _, g := range m.Glyphs {
@@ -161,6 +162,9 @@ func (o *Options) String() string {
 		sb.WriteString(" names=-|")
 	}
 	fmt.Fprintf(&sb, " enc=%d date=%d eol=%d str=%d", o.EncForm, o.DateLayout, o.Eol, o.StrForm)
+	if o.HexBreak != 0 {
+		fmt.Fprintf(&sb, " hexbreak=%d", o.HexBreak)
+	}
 	if o.HexUpper {
 		sb.WriteString(" HEX")
 	}
